@@ -91,10 +91,24 @@ func c06Gate(p *chk.Prog, r *chk.Report) {
 			y.Fail("reprocessAll:gate-site", a.Sel.Pos(), "gate write not found in the control-flow graph")
 			continue
 		}
-		retry := c06RetryVar(fn, g)
-		y.Check("reprocessAll:gate-not-on-retry-path", a.Sel.Pos(), retry != nil && g.Dominated(sites[0], chk.GBool(false, fn.IsObj(retry))), "", "the gate can be opened although a service failed / a re-sync was requested in the full pass")
+		// the gate opens only if every service of the pass was class-filtered or handed to the handler with a result
+		// that is neither SyncStateError nor SyncStateReprocessAll (for-all idiom: early exit, or a retry flag)
 		loop := c06HandlerLoop(fn)
-		y.Check("reprocessAll:gate-after-loop", a.Sel.Pos(), loop != nil && g.AfterLoop(sites[0], loop), "", "the gate can be opened before every service was handed to the handler")
+		if loop == nil {
+			y.Fail("reprocessAll:gate-after-loop", a.Sel.Pos(), "no loop handing services to the handler")
+			continue
+		}
+		isRes := func(e ast.Expr) bool {
+			c, ok := ast.Unparen(fn.Resolve(e)).(*ast.CallExpr)
+			return ok && fn.MatchWith("RECV.Handler(ETC)", c) != nil
+		}
+		handled := chk.GEvent(fn.ContainsPat("RECV.Handler(ETC)"))
+		noErr := g.GPat(false, "T == C", chk.H("T", isRes), chk.H("C", isObjNamed(fn, ctrlPkg+".SyncStateError")))
+		noRe := g.GPat(false, "T == C", chk.H("T", isRes), chk.H("C", isObjNamed(fn, ctrlPkg+".SyncStateReprocessAll")))
+		filtered := g.GPat(true, "filterByLoadBalancerClass(&S, RECV.LoadBalancerClass)", chk.H("S", rangeVal(fn, loop)))
+		why := forallBefore(fn, g, loop, chk.GOr(filtered, chk.GAnd(handled, noErr, noRe)), sites[0])
+		y.Check("reprocessAll:gate-not-on-retry-path", a.Sel.Pos(), why == "", "", "the gate can be opened although a service failed / a re-sync was requested / a service was not handled in the full pass: "+why)
+		y.OK("reprocessAll:gate-after-loop", a.Sel.Pos(), "")
 	}
 }
 
@@ -216,8 +230,15 @@ func c06Order(p *chk.Prog, r *chk.Report) {
 	isHandler := lf.ContainsPat("RECV.Handler(ETC)")
 	_ = isHandler
 	handler := f.ContainsPat("RECV.Handler(L, N, &S, E)", chk.H("S", rangeVal(f, loop)))
-	skip := loopSkipsWithout(g, loop, handler, g.GPat(true, "filterByLoadBalancerClass(&S, RECV.LoadBalancerClass)", chk.H("S", rangeVal(f, loop))))
-	x.Check("reprocessAll:every-service-handled", loop.Pos(), !skip, "", "a service can be skipped by the full pass for a reason other than the load-balancer class filter")
+	filtered := g.GPat(true, "filterByLoadBalancerClass(&S, RECV.LoadBalancerClass)", chk.H("S", rangeVal(f, loop)))
+	skip := false
+	ends := g.LoopIteration(loop, chk.GOr(filtered, chk.GEvent(handler)))
+	for _, e := range ends {
+		if !e.OK {
+			skip = true
+		}
+	}
+	x.Check("reprocessAll:every-service-handled", loop.Pos(), !skip && len(ends) > 0, "", "a service can be skipped by the full pass (or the pass left early) for a reason other than the load-balancer class filter")
 }
 
 // loopSkipsWithout: some path through the loop body reaches the loop head
@@ -282,45 +303,49 @@ func syncStateRule(p *chk.Prog, r *chk.Report) {
 			inspected := g.EdgeImpliesAny(g.GPat(true, "T == C", chk.H("T", isRes), chk.H("C", isObjNamed(f, ctrlPkg+".SyncStateError")))) ||
 				g.EdgeImpliesAny(g.GPat(false, "T == C", chk.H("T", isRes), chk.H("C", isObjNamed(f, ctrlPkg+".SyncStateError"))))
 			x.Check("switch@"+f.Name()+":tag-is-handler-result", call.Pos(), inspected, "", "the handler's result is not inspected")
-			retryFlag := syncRetryFlag(f, g)
-			isRetryRet := func(nd ast.Node) bool {
-				rs, ok := nd.(*ast.ReturnStmt)
-				return ok && len(rs.Results) == 2 && isObjNamed(f, ctrlPkg+".errRetry")(rs.Results[1])
-			}
-			setFlag := func(nd ast.Node) bool {
-				return retryFlag != nil && f.IsAssignPat("R", "true", chk.H("R", f.IsObj(retryFlag)))(nd)
-			}
 			reload := func(nd ast.Node) bool {
-				return f.ContainsPat("RECV.forceReload()")(nd) || f.ContainsPat("RECV.ForceReload()")(nd)
+				return f.ContainsPat("RECV.forceReload()")(nd) || f.ContainsPat("RECV.ForceReload()")(nd) ||
+					isReloadSend(f, nd)
 			}
+			// a result without an error (`return …, nil`) that is reachable from the handler call needs: the result was
+			// not SyncStateError, and it was not SyncStateReprocessAll unless the reload was requested - for every
+			// element when the handler is called in a loop (early exit or retry flag), else on every path
+			noErr := g.GPat(false, "T == C", chk.H("T", isRes), chk.H("C", isObjNamed(f, ctrlPkg+".SyncStateError")))
+			noRe := g.GPat(false, "T == C", chk.H("T", isRes), chk.H("C", isObjNamed(f, ctrlPkg+".SyncStateReprocessAll")))
 			for _, want := range []struct {
-				cst  string
-				via  func(ast.Node) bool
-				what string
+				cst   string
+				guard chk.Guard
+				what  string
 			}{
-				{"SyncStateError", func(nd ast.Node) bool { return isRetryRet(nd) || setFlag(nd) }, "a retry"},
-				{"SyncStateReprocessAll", func(nd ast.Node) bool { return reload(nd) || setFlag(nd) }, "a reload of all services"},
+				{"SyncStateError", noErr, "a retry"},
+				{"SyncStateReprocessAll", chk.GOr(noRe, chk.GEvent(reload)), "a reload of all services"},
 			} {
-				es := g.EdgesImplying(g.GPat(true, "T == C", chk.H("T", isRes), chk.H("C", isObjNamed(f, ctrlPkg+"."+want.cst))))
-				if len(es) == 0 {
+				if !g.EdgeImpliesAny(g.GPat(true, "T == C", chk.H("T", isRes), chk.H("C", isObjNamed(f, ctrlPkg+"."+want.cst)))) &&
+					!g.EdgeImpliesAny(g.GPat(false, "T == C", chk.H("T", isRes), chk.H("C", isObjNamed(f, ctrlPkg+"."+want.cst)))) {
 					x.Fail("switch@"+f.Name()+":"+want.cst+":case", call.Pos(), "no case for "+want.cst)
 					continue
 				}
-				for _, e := range es {
-					w := g.BranchAlways(e, want.via)
-					x.Check("switch@"+f.Name()+":"+want.cst, posOf(w, f), !w.Found, "", want.cst+" does not lead to "+want.what)
-				}
-			}
-			if retryFlag != nil {
-				// the flag forces errRetry
-				es := g.EdgesImplying(chk.GBool(true, f.IsObj(retryFlag)))
-				okk := len(es) > 0
-				for _, e := range es {
-					if g.BranchAlways(e, isRetryRet).Found {
-						okk = false
+				ok, where := true, call.Pos()
+				loop, _ := f.LoopOf(call).(*ast.RangeStmt)
+				for _, rt := range g.Returns() {
+					rr := retResults(rt)
+					if len(rr) != 2 || !f.IsNilLit(rr[1]) {
+						continue
+					}
+					node := rt.Node
+					if w := (&chk.Walk{G: g, From: hc, Hit: func(m ast.Node) bool { return m == node }}).Run(); !w.Found {
+						continue // not reachable from the handler call
+					}
+					if loop != nil && !chk.InBody(loop, rt.Node) {
+						called := chk.GEvent(func(m ast.Node) bool { return chk.Encloses(m, call) })
+						if why := forallBefore(f, g, loop, chk.GOr(chk.GNot(called), want.guard), rt); why != "" {
+							ok, where = false, rt.Pos()
+						}
+					} else if !g.Dominated(rt, want.guard) {
+						ok, where = false, rt.Pos()
 					}
 				}
-				x.Check("switch@"+f.Name()+":retry-flag-forces-errRetry", call.Pos(), okk, "", "the retry flag does not lead to `return …, errRetry`")
+				x.Check("switch@"+f.Name()+":"+want.cst, where, ok, "", want.cst+" does not lead to "+want.what+": a result without an error is reachable")
 			}
 		}
 	}
@@ -436,4 +461,16 @@ func c06Clear(p *chk.Prog, r *chk.Report) {
 			x.Check("clearServiceState:"+c.name, posOf(w, cf), !w.Found, "", "clearServiceState can return without this step")
 		}
 	}
+}
+
+// isReloadSend: `X.Reload <- NewReloadEvent()` (forceReload written in place).
+func isReloadSend(f *chk.Fn, nd ast.Node) bool {
+	found := false
+	chk.InspectNoLit(nd, func(m ast.Node) bool {
+		if ss, ok := m.(*ast.SendStmt); ok && f.MatchNew("R.Reload", ss.Chan) != nil && f.MatchNew("NewReloadEvent()", ss.Value) != nil {
+			found = true
+		}
+		return true
+	})
+	return found
 }
